@@ -1,6 +1,7 @@
 CONSTANTS Urls <- UrlsC
           Texts <- TextsC
           Cfgs <- CfgsC
+          ForgetIdentRecord = TRUE
           ConfigRebuilds = FALSE
           MaxMsgs = 4
           MaxInFlight = 1
